@@ -119,8 +119,8 @@ CFG = dict(
          "raw_slices_spanning_source_slice on segment ranges, slice borders and random ranges against the Gallina spanning. "
          "non-trivial = at least one patch (span: a range spanning several raw slices); distinct = distinct (args, expected) pairs. "
          "direct = fixed text vs tree raw (untemplated), placeholders and re-render (templated)",
-    assumptions=["usize subtractions in iter_patches wrap (harness profile has overflow checks off); the monitor "
-                 "'no usize underflow' reports inputs on which a build with overflow checks would panic instead",
+    assumptions=["iter_patches' gap test is a comparison since the repair (no usize subtraction left); the diagnostic monitor "
+                 "'no child starts before the running templated index' counts the trees on which the unrepaired code underflowed",
                  "source fixes are always empty in this port (SegmentBuilder::node sets source_fixes: vec![]); monitored per tree",
                  "inputs on which lexing/parsing or a rule panics are skipped and counted (C03/C15), not reported under C04",
                  "templated failures are keyed by class when the outcome shows one of the recorded findings (placeholder fused with its "
